@@ -21,6 +21,7 @@ func init() {
 	vrt.Register("C12_results", Results)
 	vrt.Register("C12_evaluation_order", EvaluationOrder)
 	vrt.Register("C12_nested_calls", NestedCalls)
+	vrt.Register("C12_error_result_positions", ErrorResultPositions)
 }
 
 func itoa(n int) string { return strconv.Itoa(n) }
@@ -488,5 +489,51 @@ func NestedCalls() {
 			vrt.Assert(r.log[i] == wantLog[i], "each helper receives exactly its own arguments, inner calls first")
 		}
 	}
+	vrt.Cover("done")
+}
+
+type errHelpers struct{ ran int }
+
+func (e *errHelpers) plain() (string, error) { e.ran++; return "", errBoom }
+func (e *errHelpers) wrapsUnknown() (string, error) {
+	e.ran++
+	return "", errors.Join(errBoom, &plush.ErrUnknownIdentifier{ID: "inner"})
+}
+func (e *errHelpers) isUnknown() (string, error) {
+	e.ran++
+	return "", &plush.ErrUnknownIdentifier{ID: "inner"}
+}
+func (e *errHelpers) renders(help plush.HelperContext) (string, error) {
+	e.ran++
+	return help.Render("<%= undefinedName %>")
+}
+
+// a non-nil trailing error result fails the render wherever the call is written,
+// also where an unknown *identifier* would be tolerated
+func ErrorResultPositions() {
+	h := &errHelpers{}
+	ctx := plush.NewContext()
+	ctx.Set("plain", h.plain)
+	ctx.Set("wrapsUnknown", h.wrapsUnknown)
+	ctx.Set("renders", h.renders)
+	calls := []string{"plain()", "wrapsUnknown()", "renders()"}
+	c := calls[vrt.Choice(len(calls))]
+	pos := []string{
+		"<%= X %>", "<%= if (X) { %>a<% } else { %>b<% } %>", "<%= if (false) { %>a<% } else if (X) { %>b<% } %>",
+		"<%= !X %>", "<%= X == nil %>", "<%= nil != X %>", "<%= X && true %>", "<%= false || X %>", "<% let z = X %>",
+	}
+	in := ""
+	tpl := pos[vrt.Choice(len(pos))]
+	for i := 0; i < len(tpl); i++ {
+		if tpl[i] == 'X' {
+			in += c
+		} else {
+			in += tpl[i : i+1]
+		}
+	}
+	out, err := render(in, ctx)
+	vrt.Assert(h.ran == 1, "the helper is invoked exactly once")
+	vrt.Assert(err != nil, "a non-nil trailing error result fails the render: "+c)
+	vrt.Assert(out == "", "an error comes with empty output")
 	vrt.Cover("done")
 }
